@@ -264,12 +264,19 @@ def screen_for(sizes):
     return _SCREENS[key]
 
 
-def make_distance_matrix(D):
+def make_distance_matrix(D, order=None):
+    """order: None = pairs stored row by row; 'reversed' = last pair first; 'swapped-halves' = as two chunk files combined in
+    the other order would leave them.  The matrix is the same matrix."""
     n = len(D)
     cdm = ChunkedDistanceMatrix(n)
-    for i in range(n):
-        for j in range(i):
-            cdm.add_value(i, j, D[i][j])
+    pairs = [(i, j) for i in range(n) for j in range(i)]
+    if order == "reversed":
+        pairs = pairs[::-1]
+    elif order == "swapped-halves":
+        h = len(pairs) // 2
+        pairs = pairs[h:] + pairs[:h]
+    for i, j in pairs:
+        cdm.add_value(i, j, D[i][j])
     return cdm
 
 
@@ -325,7 +332,7 @@ def execute(case, chooser):
                     mt[k] = case["means"][p][t][e]
                     vt[k] = case["variances"][p][t][e]
             holder.add_theta(TableTheta(mt, vt))
-        cdm = make_distance_matrix(case["D"])
+        cdm = make_distance_matrix(case["D"], order=case.get("cdm_order"))
         scorer = G.GaussianDBALScorer(max_chunk=case["max_chunk"], max_triples=case["max_combos"])
         arg = {int(plates[p].plate_id): plates[p] for p in order}
         if case.get("warm_D") is not None:
@@ -440,6 +447,7 @@ def plan(tier, seed):
         for n in (3, 4):
             items.append({"kind": "large", "n": n, "family": fam})
     items.append({"kind": "bigbatch", "n": 16, "family": "graded"})
+    items.append({"kind": "bigbudget"})
     for plates in (65, 70, 130, 300):
         items.append({"kind": "manyplates", "n": 4, "family": "graded", "plates": plates})
     for n in tp["ns"][:3]:
@@ -542,6 +550,17 @@ def run_item(item, col, tier):
             check_case(case, col, Chooser(), base.expected(entry), _dims(base, case["order"]) | {"many-plates"})
             col.states += 1
         return
+    if kind == "bigbudget":
+        # 34 posterior samples = 5984 triples, budget 6000: every triple is enumerated by every entry point (a budget that
+        # is lost on the way to the kernel falls back to 5000 and samples)
+        base = Base(34, "graded", [2, 1])
+        for entry in ENTRIES:
+            for mc in ((1, 50) if entry == "scorer" else (50,)):
+                case = base.case(entry, max_combos=6000, max_chunk=mc)
+                case["__item__"] = item
+                check_case(case, col, Chooser(), base.expected(entry), _dims(base, case["order"]) | {"budget-above-5000"})
+                col.states += 1
+        return
     if kind == "bigbatch":
         # ONE sparse probe far outside the enumerated sizes: 20 plates (one of 400 experiments) x 560 triples in one call, so
         # that any workload-dependent path (blocking, spilling) of the kernel is taken at least once; each plate is still
@@ -563,6 +582,15 @@ def run_item(item, col, tier):
                 case["again"] = True
                 check_case(case, col, Chooser(), base.expected("kernel"), _dims(base, case["order"]) | {"same-arrays-scored-twice"})
                 col.states += 1
+        # the scorer's distance matrix holds its pairs in another order (chunk files combined in another order)
+        for fam in ("graded", "onepair"):
+            for sizes in ([2], [1, 3], [2, 2, 1]):
+                base = Base(item["n"], fam, sizes)
+                for od in ("reversed", "swapped-halves"):
+                    case = base.case("scorer")
+                    case["cdm_order"] = od
+                    check_case(case, col, Chooser(), base.expected("scorer"), _dims(base, case["order"]) | {"distance-pairs-stored-in-another-order"})
+                    col.states += 1
         # one scorer object, two calls with different distance matrices of the same size: the second call is judged
         for fam in ("graded", "onepair", "extreme"):
             for sizes in ([2], [1, 3], [2, 2, 1]):
